@@ -8,9 +8,10 @@ lockgraph_step(check, ctx)
     so a graph that violates the discipline makes `lake build OW.Props.C08` fail *inside OW/Gen* — which vlib.core
     reports as a broken proof obligation (a verdict), not as an internal error.
     For the report the same relaxation as `OW.Sim.LockCheck.solve` is run here on the extractor's JSON and every
-    offending library call is listed with a call chain from an exported entry point (the failing input of this tie);
-    these go to ctx["oracle_failures"] with scope "H5:lockgraph". The verdict itself never depends on this Python code:
-    it is the Lean kernel evaluating `lockCheck` on the regenerated data.
+    offending library call is listed with a call chain from an exported entry point. These are reported as broken PROOF
+    OBLIGATIONS (not as failing inputs: a behaviour-preserving re-plumbing of the locking breaks the graph rule as well); the
+    failing input comes from the dynamic side (family H5 asserts the lock probe at every library call). The obligation itself
+    never depends on this Python code: it is the Lean kernel evaluating `lockCheck` on the regenerated data.
 """
 import json
 import os
@@ -99,8 +100,10 @@ def lockgraph_step(check, ctx):
     problems = []
     if bad:
         info["lock_graph"]["offenders"] = bad[:20]
-        ctx.setdefault("oracle_failures", [])
+        # the lock graph is a PROOF OBLIGATION about the shape of the current source (a hypothesis of the C08 lock theorems), not a
+        # failing input: a behaviour-preserving re-plumbing of the locking (helpers taking a closure, …) breaks it as well. The failing
+        # input comes from the dynamic side: the H5 family asserts the lock probe (held / exclusive) at EVERY library call of every
+        # generated history; when that finds nothing the verdict is no-failing-input-found.
         for k, b in enumerate(bad[:5]):
-            ctx["oracle_failures"].append({"case": "lockgraph-%d" % k, "scope": "H5:lockgraph", "what": b, "op": "",
-                                           "family": "lockgraph"})
+            problems.append({"kind": "proof-obligation", "name": "lock graph rule violated: " + b[:160], "detail": b})
     return problems
